@@ -530,6 +530,43 @@ def run_c12_probes(tier, seed, verdict, cov, cases, d):
             raise ToolError('self-test: no probed event')
 
 
+def prove_probe_rule(cov, d):
+    """TLAPS: the probe rule (TTProbe.tla) is sound for true entries and ignores entries that are too shallow
+    (spec/TTProbeProofs.tla, all integers).  Sensitivity: the same theorems about a rule whose upper-bound arm
+    lacks the depth guard must NOT be provable."""
+    import subprocess
+
+    def tlapm(dirname, mutate):
+        w = os.path.join(d, dirname)
+        os.makedirs(w, exist_ok=True)
+        for f in ('TTProbe.tla', 'TTProbeProofs.tla'):
+            txt = open(os.path.join(SPEC, f)).read()
+            if mutate and f == 'TTProbe.tla':
+                old = 'b2 == IF e.bound = "U" /\\ e.score < b THEN e.score ELSE b IN'
+                if old not in txt:
+                    raise ToolError('prove_probe_rule: TTProbe.tla changed, sensitivity variant cannot be derived')
+                txt = txt.replace('IF e.depth < dp THEN', 'IF e.depth < dp /\\ e.bound # "U" THEN')
+            open(os.path.join(w, f), 'w').write(txt)
+        try:
+            p = subprocess.run(['timeout', '600', 'tlapm', '--threads', '4', '--cleanfp', 'TTProbeProofs.tla'], cwd=w,
+                               stdout=subprocess.PIPE, stderr=subprocess.STDOUT, text=True)
+        except OSError as e:
+            raise ToolError('tlapm could not be run: %s' % e)
+        return p.stdout
+    out = tlapm('tlaps', False)
+    m = re.search(r'All (\d+) obligations? proved', out)
+    if not m:
+        log(out[-3000:])
+        raise ToolError('TLAPS did not prove spec/TTProbeProofs.tla')
+    out2 = tlapm('tlaps-mut', True)
+    m2 = re.search(r'(\d+)/(\d+) obligations? failed', out2)
+    if re.search(r'All (\d+) obligations? proved', out2) or not m2:
+        log(out2[-3000:])
+        raise ToolError('TLAPS sensitivity: the theorems are provable for a rule without the depth guard (vacuous statement?)')
+    cov['tlaps'] = {'spec/TTProbeProofs.tla': '%s obligations proved (ReturnSound, NarrowedWindowInside, NarrowSound, UsedOnlyIfDeepEnough, ShallowIgnored; all integers)' % m.group(1),
+                    'sensitivity': 'rule without the depth guard on the upper-bound arm: %s of %s obligations fail' % (m2.group(1), m2.group(2))}
+
+
 def run_c12_stores(tier, seed, verdict, cov, fens, d):
     """Every cache write of the real search is true of the node it is stored for (EntriesTrue of Search.tla on
     the real entries): searches of the C12 positions with the probes neutralised, the un-pruned tree dumped with
@@ -678,6 +715,7 @@ def run_c12(tier, seed, verdict, cov):
         raise ToolError('vacuity: fewer than 2 applicable (position, cache history, depth) cases')
     run_c12_probes(tier, seed, verdict, cov, cases, d)
     run_c12_stores(tier, seed, verdict, cov, fens, d)
+    prove_probe_rule(cov, d)
     # self-test: replace the chosen move of an applicable mate-in-1 case by a non-mating one
     if not verdict.violations:
         done = False
